@@ -397,6 +397,7 @@ fn miri_stage(prop: &str, tier: &str, seed: u64) -> (serde_json::Value, usize) {
         ("thorough", "metrics_many_threads") => 96, // 27 threads: ~15 s per seed
         ("thorough", _) => 256,
         (_, "metrics_many_threads") => 16,
+        (_, "value_refs") => 64,
         _ => 32,
     });
     let from = (seed % 1000) * 1000;
